@@ -2,6 +2,8 @@ import FrappyProofs.Lemmas.ReqLoop
 import FrappyProofs.Lemmas.Codec
 import FrappyProofs.Lemmas.NoEol
 import FrappyProofs.Lemmas.Senders
+import FrappyProofs.Lemmas.Indep
+import FrappyProofs.Lemmas.PeerGone
 import FrappyModel.Generated.C07
 /-
 C07 — property theorems (nothing but property theorems and their non-vacuity examples).
@@ -25,6 +27,20 @@ def tables : Tables where
   handlerErrorClass := Generated.C07.handlerErrorClass
   errorClasses := Generated.C07.errorClasses
   asyncActions := Generated.C07.asyncActions
+  stateActions := Generated.C07.stateActions
+
+/-- the constants of the dispatcher, generated from the working tree of the repository -/
+def dtables : DTables where
+  readRequest := Generated.C07.readRequest
+  writeRequest := Generated.C07.writeRequest
+  commandRequest := Generated.C07.commandRequest
+  pingRequest := Generated.C07.pingRequest
+  activateRequest := Generated.C07.activateRequest
+  deactivateRequest := Generated.C07.deactivateRequest
+  loggingRequest := Generated.C07.loggingRequest
+  protocolError := Generated.C07.protocolError
+  valueName := Generated.C07.valueName
+  targetName := Generated.C07.targetName
 
 /-- what the theorems need of the constant tables -/
 structure TableFacts (T : Tables) : Prop where
@@ -259,6 +275,76 @@ theorem error_class_is_secop (T : Tables) (L : Lib J) (d : Disp σ J) (facts : T
 
 end loop
 
+/-! ## No input changes the answers given to other lines -/
+
+/-- the requests a module carries out are exactly the generated state actions, all of them have a
+reply action, and the dispatcher's own error class is a SECoP class -/
+theorem generated_dispatcher_facts :
+    DTableFacts tables dtables ∧ tables.stateActions = [dtables.readRequest, dtables.writeRequest, dtables.commandRequest]
+    ∧ (∀ a ∈ tables.stateActions, (tables.request2reply.lookup a).isSome = true)
+    ∧ dtables.protocolError ∈ tables.errorClasses
+    ∧ (∀ p ∈ tables.request2reply, p.1 ∈ Generated.C07.dispatcherHandlers) :=
+  ⟨⟨by decide, by decide, by decide⟩, by decide, by decide, by decide, by decide⟩
+
+section indep
+variable {J σ : Type}
+
+/-- **neutral_lines_removable** — "no input changes the answers given to other lines": take any byte
+stream in any segmentation, and the stream without some of its neutral request lines (anything but
+`read` / `change` / `do`: describe, ping, activate, …, blank lines, unknown actions, undecodable
+bytes) in any other segmentation.  With a dispatcher that does its part (`DispNeutral`), started in
+states that answer alike, the replies to the lines that stay are the same in both runs, and the
+dispatcher ends in states that answer alike. -/
+theorem neutral_lines_removable (T : Tables) (L : Lib J) (d : Disp σ J) (R : σ → σ → Prop) (hd : DispNeutral T d R)
+    (st st' : σ) (hst : R st st') (m : Marked) (hm : OnlyNeutralDropped T L m)
+    (chunks chunks' : List Bytes) (tail tail' : Bytes)
+    (h : IsFraming chunks.flatten (allLines m) tail) (h' : IsFraming chunks'.flatten (keptLines m) tail') :
+    keptOf m ((replies (serve T L d [] st chunks).outs).map (·.msg))
+      = (replies (serve T L d [] st' chunks').outs).map (·.msg)
+    ∧ R (serve T L d [] st chunks).st (serve T L d [] st' chunks').st := by
+  obtain ⟨h1, _, h3⟩ := serve_eq_serveLines T L d chunks [] st
+  obtain ⟨h1', _, h3'⟩ := serve_eq_serveLines T L d chunks' [] st'
+  obtain ⟨hl, _⟩ := feed_lines_are_the_lines chunks _ _ h
+  obtain ⟨hl', _⟩ := feed_lines_are_the_lines chunks' _ _ h'
+  rw [h1, h1', h3, h3', hl, hl', replies_msg_eq_answers, replies_msg_eq_answers]
+  exact answers_neutral_removed T L d R hd m st st' hm hst
+
+/-- **other_connections_unaffected** — two connections served one after the other by one dispatcher
+(the dispatcher is shared by all connections of a node): whatever neutral lines are left out on the
+first connection (and on the second), every line that stays on the second connection gets the
+same reply -/
+theorem other_connections_unaffected (T : Tables) (L : Lib J) (d : Disp σ J) (R : σ → σ → Prop) (hd : DispNeutral T d R)
+    (st : σ) (mA mB : Marked) (hA : OnlyNeutralDropped T L mA) (hB : OnlyNeutralDropped T L mB)
+    (a a' b b' : List Bytes) (ta ta' tb tb' : Bytes)
+    (ha : IsFraming a.flatten (allLines mA) ta) (ha' : IsFraming a'.flatten (keptLines mA) ta')
+    (hb : IsFraming b.flatten (allLines mB) tb) (hb' : IsFraming b'.flatten (keptLines mB) tb') :
+    keptOf mB ((replies (serve T L d [] (serve T L d [] st a).st b).outs).map (·.msg))
+      = (replies (serve T L d [] (serve T L d [] st a').st b').outs).map (·.msg) := by
+  obtain ⟨_, hs⟩ := neutral_lines_removable T L d R hd st st (hd.refl st) mA hA a a' ta ta' ha ha'
+  exact (neutral_lines_removable T L d R hd _ _ hs mB hB b b' tb tb' hb hb').1
+
+variable {ν κ : Type}
+
+/-- **dispatcher_answers_independent** — the same for the model of `Dispatcher.handle_request` over any
+node (`NodeIf`: any modules, any descriptive data, any event bookkeeping) and any two subscription
+states: no hypothesis on the dispatcher is left -/
+theorem dispatcher_answers_independent (L : Lib J) (N : NodeIf ν κ J) (nu : ν) (k k' : κ)
+    (m : Marked) (hm : OnlyNeutralDropped tables L m) (chunks chunks' : List Bytes) (tail tail' : Bytes)
+    (h : IsFraming chunks.flatten (allLines m) tail) (h' : IsFraming chunks'.flatten (keptLines m) tail') :
+    keptOf m ((replies (serve tables L (dispatch tables dtables N) [] (nu, k) chunks).outs).map (·.msg))
+      = (replies (serve tables L (dispatch tables dtables N) [] (nu, k') chunks').outs).map (·.msg) :=
+  (neutral_lines_removable tables L _ _ (dispatch_neutral tables dtables N generated_dispatcher_facts.1)
+    (nu, k) (nu, k') rfl m hm chunks chunks' tail tail' h h').1
+
+/-- **dispatcher_reply_fits** — the `FitsOk` half of `DispFits` is a property of the dispatcher model,
+not an assumption: every triple it returns carries the reply action of the request and its specifier -/
+theorem dispatcher_reply_fits (N : NodeIf ν κ J) (st : ν × κ) (t r : Triple J)
+    (h : (dispatch tables dtables N st t).1.res = .ok r) :
+    FitsOk tables ⟨t.action, t.spec.getD []⟩ r.action (r.spec.getD []) :=
+  dispatch_reply_fits tables dtables N st t r h
+
+end indep
+
 /-! ## Codec -/
 
 section codec
@@ -470,13 +556,99 @@ theorem lines_whole (T : Tables) (L : Lib J) (d : Disp σ J) (laws : LibLaws L) 
     obtain ⟨_, w, r, hc, hp, hout⟩ := hl
     exact ⟨w, r, hc, hp, hout⟩
 
+/-- **senders_keep_order** — in every reachable state of any number of senders (any queues, any
+interleaving of acquire / partial writes / release): the frames completed so far are `doneBy` without the
+sender numbers, and for every sender what it has completely sent (in the order the peer got it), the
+frame it is writing and what it still has to send are, in this order, exactly the frames it set out
+to send — nothing lost, duplicated or overtaken -/
+theorem senders_keep_order (queue : Nat → List Bytes) (s : SockState) (hreach : SendReach (sockInit queue) s) :
+    s.done = s.doneBy.map Prod.snd ∧ ∀ i, sentBy s i ++ inFlight s i ++ s.queue i = queue i :=
+  orderInv_reach (fun _ => True) queue (fun _ _ _ => trivial) hreach
+
+/-- **replies_in_order_among_events** — the handler thread (sender 0) answering any byte stream in any
+segmentation, any other senders on the same connection: the frames of the handler thread reach the
+peer in the order of `serve` (so the replies are in request order, `one_reply_per_line`), however the
+events of the other threads are interleaved; once the handler thread has nothing left to send, the peer
+has got all of them -/
+theorem replies_in_order_among_events (T : Tables) (L : Lib J) (d : Disp σ J) (st : σ) (chunks : List Bytes)
+    (others : Nat → List (Triple J)) (s : SockState)
+    (hreach : SendReach (sockInit (fun i => if i = 0 then wire L (serve T L d [] st chunks).outs
+                                              else (others i).map (encodeFrame L))) s) :
+    sentBy s 0 ++ inFlight s 0 ++ s.queue 0 = wire L (serve T L d [] st chunks).outs
+    ∧ (s.queue 0 = [] → s.cur 0 = none → sentBy s 0 = wire L (serve T L d [] st chunks).outs) := by
+  have h := (senders_keep_order _ s hreach).2 0
+  simp only [↓reduceIte] at h
+  refine ⟨h, fun hq hc => ?_⟩
+  rw [← h, hq]
+  simp [inFlight, hc]
+
 /-- non-vacuity of the step relation: two senders, the second acquires while the first has not
 started; a state with the lock held and half a frame written is reachable -/
 example : ∃ s, SendReach (sockInit (fun i => if i = 0 then [[97, 10]] else if i = 1 then [[98, 99, 10]] else [])) s
     ∧ s.lock = some 1 ∧ s.out = [98] := by
   refine ⟨_, .step _ _ (.step _ _ .start (.acquire _ 1 [98, 99, 10] [] rfl rfl)) (.write _ 1 [] [98, 99, 10] 1 (by simp [upd])), rfl, rfl⟩
 
+/-- … and a state in which the second sender's frame has overtaken the first sender's: `doneBy` records who sent what -/
+example : ∃ s, SendReach (sockInit (fun i => if i = 0 then [[97, 10]] else if i = 1 then [[98, 10]] else [])) s
+    ∧ s.doneBy = [(1, [98, 10]), (0, [97, 10])] ∧ s.out = [98, 10, 97, 10] ∧ sentBy s 0 = [[97, 10]] := by
+  refine ⟨_, .step _ _ (.step _ _ (.step _ _ (.step _ _ (.step _ _ (.step _ _ .start
+    (.acquire _ 1 [98, 10] [] rfl rfl)) (.write _ 1 [] [98, 10] 2 (by simp [upd]))) (.release _ 1 [98, 10] (by simp [upd])))
+    (.acquire _ 0 [97, 10] [] rfl rfl)) (.write _ 0 [] [97, 10] 2 (by simp [upd]))) (.release _ 0 [97, 10] (by simp [upd])),
+    by simp [sockInit], by simp [sockInit], by simp [sentBy, sockInit]⟩
+
 end whole
+
+/-! ## The peer goes away -/
+
+section gone
+variable {J σ : Type}
+
+/-- **peer_gone_prefix** — a socket on which only the first `n` calls of `sendall` succeed (any `n`), any
+stream, any segmentation, any dispatcher: the peer gets exactly the first `n` frames of the run in
+which no send fails; the lines processed are a prefix of the request lines (the line during which
+the send failed is finished, no later one is touched) and the dispatcher is left in the state after
+exactly these; if the frames suffice the run is the run without failure, otherwise the loop has stopped. -/
+theorem peer_gone_prefix (T : Tables) (L : Lib J) (d : Disp σ J) (st : σ) (chunks : List Bytes) (n : Nat) :
+    let r := serveF T L d ⟨n, true⟩ [] st chunks
+    let full := serve T L d [] st chunks
+    let ls := (splitLines chunks.flatten).lines
+    r.outs = full.outs.take n
+    ∧ r.done ≤ ls.length
+    ∧ r.st = stateAfter T L d st (ls.take r.done)
+    ∧ (full.outs.length ≤ n → r.done = ls.length ∧ r.st = full.st ∧ r.sock.running = true)
+    ∧ (n < full.outs.length → r.sock.running = false) := by
+  intro r full ls
+  have hf := splitLines_isFraming chunks.flatten
+  obtain ⟨hl, _⟩ := feed_lines_are_the_lines chunks _ _ hf
+  obtain ⟨h1, _, h3⟩ := serve_eq_serveLines T L d chunks [] st
+  have hr : r = serveLinesF T L d ⟨n, true⟩ st ls := by
+    simp only [r, ls, serveF_eq_serveLinesF, hl]
+  obtain ⟨a, b, c, e, f⟩ := serveLinesF_spec T L d ls n st
+  have hfull : full.outs = (serveLines T L d st ls).1 := by simp only [full, ls, h1, hl]
+  have hfst : full.st = stateAfter T L d st ls := by simp only [full, ls, h3, hl]
+  rw [hr, hfull]
+  refine ⟨a, b, c, ?_, ?_⟩
+  · intro hle
+    obtain ⟨e1, e2⟩ := e hle
+    refine ⟨e1, ?_, by rw [e2]⟩
+    rw [c, e1, hfst, List.take_length]
+  · intro hlt
+    rw [f hlt]
+
+/-- what the peer got before it went away is sound: whole frames without a newline of their own, and
+the replies among them answer the first request lines, one each, in order -/
+theorem peer_gone_sound (T : Tables) (L : Lib J) (d : Disp σ J) (laws : LibLaws L) (tf : TableNoEol T)
+    (hd : DispFits T L d) (st : σ) (chunks : List Bytes) (n : Nat) :
+    (∀ o ∈ (serveF T L d ⟨n, true⟩ [] st chunks).outs, EOL ∉ rstripSp (joined L o.msg))
+    ∧ (replies (serveF T L d ⟨n, true⟩ [] st chunks).outs).map (·.req) <+: (splitLines chunks.flatten).lines := by
+  obtain ⟨h, _⟩ := peer_gone_prefix T L d st chunks n
+  rw [h]
+  refine ⟨fun o ho => frames_no_newline T L d laws tf hd st chunks o (List.mem_of_mem_take ho), ?_⟩
+  have h1 := (one_reply_per_line T L d st chunks _ _ (splitLines_isFraming chunks.flatten)).1
+  rw [← h1]
+  exact ((List.take_prefix n _).filter _).map _
+
+end gone
 
 /-! ## Strict JSON (recorded finding `C07:strict_json:nan-token`) -/
 
@@ -550,6 +722,17 @@ theorem emitted_strict_partial (T : Tables) (L : Lib J) (d : Disp σ J) (strict 
     rcases ho with ho | ho
     · exact handleLine_strict T L d strict fin hdumps herr hhelp hd st l o ho
     · exact ih _ o ho
+
+/-- **dispatcher_emitted_strict** — `emitted_strict_partial` with the hypothesis moved from the dispatcher
+to the node: over the dispatcher model, if the node (descriptive data, module results, events) hands
+over only finite data and `logging` accepts only finite levels, every data part sent is strict JSON —
+for all streams and segmentations.  What remains assumed is `NodeFinite` (on the real node: the
+datatypes refuse NaN and clamp ±inf, `announceUpdate` replaces a time stamp that is not finite). -/
+theorem dispatcher_emitted_strict {ν κ : Type} (L : Lib J) (N : NodeIf ν κ J) (strict : Bytes → Bool) (fin : J → Bool)
+    (hdumps : ∀ j, fin j = true → strict (L.dumps j) = true) (herr : ∀ c, fin (L.errReport c) = true)
+    (hhelp : ∀ i, fin (L.helpText i) = true) (hN : NodeFinite fin N) (st : ν × κ) (chunks : List Bytes) :
+    EmittedStrict L strict (serve tables L (dispatch tables dtables N) [] st chunks).outs :=
+  emitted_strict_partial tables L _ strict fin hdumps herr hhelp (dispatch_finite tables dtables N fin hN) st chunks
 
 end strict
 
@@ -628,5 +811,85 @@ example : judge tables [32, 114, 101, 97, 100, 32, 120, 32, 123, 10]
 example : judge tables [120, 10, 121, 10]
     [[101, 114, 114, 111, 114, 95, 120, 32, 32, 91, 34, 80, 114, 111, 116, 111, 99, 111, 108, 69, 114, 114, 111, 114, 34, 93, 10]]
     = .count 2 1 := by decide
+
+/-! ## Non-vacuity: a node, neutral lines left out, and what the monitor rejects -/
+
+/-- a node with one module `m` whose state is a number: `change` sets it to 1, `read` tells whether
+it is 0; the node description is `true`, that of `m` is `false`, nothing else exists -/
+def N0 : NodeIf Nat Unit Bool where
+  describe := fun s => if s = [] ∨ s = [46] then .ok true else if s = [109] then .ok false
+    else .secop [78, 111, 83, 117, 99, 104, 77, 111, 100, 117, 108, 101]
+  activateCheck := fun s => if s = [109] then none else some [78, 111, 83, 117, 99, 104, 77, 111, 100, 117, 108, 101]
+  logging := fun _ _ => .ok ()
+  truthy := fun j => j
+  pong := false
+  read := fun nu _ _ => (.ok (decide (nu = 0)), nu)
+  change := fun _ _ _ _ => (.ok true, 1)
+  exec := fun nu _ _ _ => (.exc, nu)
+  events := fun _ _ _ => []
+  book := fun k _ => k
+
+/-- `NodeFinite` is satisfiable: with `false` standing for the one value that is not finite, `N0` hands
+over `false` only as description of `m` — so it is finite for `fin := fun _ => true`, and not for `fin := id` -/
+example : NodeFinite (fun _ => true) N0 :=
+  ⟨fun _ _ _ => rfl, rfl, fun _ _ _ _ _ => rfl, fun _ _ _ _ _ _ => rfl, fun _ _ _ _ _ _ => rfl,
+    fun _ _ _ _ h => by simp [N0] at h, fun _ _ _ => rfl⟩
+
+example : ¬ NodeFinite (fun j => j) N0 := fun h => by
+  have := h.describe [109] false (by simp [N0])
+  exact absurd this (by decide)
+
+/-- `describe`, `read m`, `change m t`, `describe m`, a blank line, `describe x`, `read m`;
+the three `describe` lines and the blank line are left out -/
+def m0 : Marked :=
+  [([100, 101, 115, 99, 114, 105, 98, 101], false), ([114, 101, 97, 100, 32, 109], true), ([99, 104, 97, 110, 103, 101, 32, 109, 32, 116], true), ([100, 101, 115, 99, 114, 105, 98, 101, 32, 109], false),
+   ([], false), ([100, 101, 115, 99, 114, 105, 98, 101, 32, 120], false), ([114, 101, 97, 100, 32, 109], true)]
+
+example : OnlyNeutralDropped tables L0 m0 := by decide
+
+/-- leaving out a `change` is not covered: it is not neutral -/
+example : ¬ OnlyNeutralDropped tables L0 [([99, 104, 97, 110, 103, 101, 32, 109, 32, 116], false)] := by decide
+
+/-- the two runs of `dispatcher_answers_independent` on `m0`, evaluated: the three lines that stay get
+`reply m true`, `changed m true`, `reply m false` in both (the answer to `read m` does depend on the
+`change` before it, so the dispatcher state matters), and the `describe` lines are answered each by
+its own description -/
+example :
+    (replies (serve tables L0 (dispatch tables dtables N0) [] (0, ()) [(allLines m0).flatMap (· ++ [EOL])]).outs).map
+        (fun o => (o.msg.action, o.msg.data))
+      = [([100, 101, 115, 99, 114, 105, 98, 105, 110, 103], some true), ([114, 101, 112, 108, 121], some true), ([99, 104, 97, 110, 103, 101, 100], some true),
+         ([100, 101, 115, 99, 114, 105, 98, 105, 110, 103], some false), ([104, 101, 108, 112, 105, 110, 103], none), ([101, 114, 114, 111, 114, 95, 100, 101, 115, 99, 114, 105, 98, 101], some false),
+         ([114, 101, 112, 108, 121], some false)]
+    ∧ (replies (serve tables L0 (dispatch tables dtables N0) [] (0, ()) [(keptLines m0).flatMap (· ++ [EOL])]).outs).map
+        (fun o => (o.msg.action, o.msg.data))
+      = [([114, 101, 112, 108, 121], some true), ([99, 104, 97, 110, 103, 101, 100], some true), ([114, 101, 112, 108, 121], some false)] := by
+  decide
+
+/-- the monitor accepts answers that stay and rejects an answer that changes when an earlier
+`describe` is left out (what a dispatcher does that keeps the first description it built) -/
+example : judgeIndep tables L0 [([100, 101, 115, 99, 114, 105, 98, 101], false), ([100, 101, 115, 99, 114, 105, 98, 101, 32, 109], true)]
+    [[100, 101, 115, 99, 114, 105, 98, 105, 110, 103, 32, 46, 32, 123, 34, 109, 111, 100, 117, 108, 101, 115, 34, 58, 32, 49, 125] ++ [10], [100, 101, 115, 99, 114, 105, 98, 105, 110, 103, 32, 109, 32, 123, 34, 97, 99, 99, 101, 115, 115, 105, 98, 108, 101, 115, 34, 58, 32, 50, 125] ++ [10]]
+    [[100, 101, 115, 99, 114, 105, 98, 105, 110, 103, 32, 109, 32, 123, 34, 97, 99, 99, 101, 115, 115, 105, 98, 108, 101, 115, 34, 58, 32, 50, 125] ++ [10]] = .ok := by decide
+
+example : judgeIndep tables L0 [([100, 101, 115, 99, 114, 105, 98, 101], false), ([100, 101, 115, 99, 114, 105, 98, 101, 32, 109], true)]
+    [[100, 101, 115, 99, 114, 105, 98, 105, 110, 103, 32, 46, 32, 123, 34, 109, 111, 100, 117, 108, 101, 115, 34, 58, 32, 49, 125] ++ [10], [100, 101, 115, 99, 114, 105, 98, 105, 110, 103, 32, 109, 32, 123, 34, 109, 111, 100, 117, 108, 101, 115, 34, 58, 32, 49, 125] ++ [10]]
+    [[100, 101, 115, 99, 114, 105, 98, 105, 110, 103, 32, 109, 32, 123, 34, 97, 99, 99, 101, 115, 115, 105, 98, 108, 101, 115, 34, 58, 32, 50, 125] ++ [10]] = .changed 0 := by decide
+
+/-- leaving out `change m t` is a defect of the case; `change m 1` is not a message for `L0` (its JSON
+layer knows `t` and `f` only) and may be left out -/
+example : judgeIndep tables L0 [([99, 104, 97, 110, 103, 101, 32, 109, 32, 116], false), ([114, 101, 97, 100, 32, 109], true)] [] []
+    = .notNeutral 0 := by decide
+
+example : Removable tables L0 [99, 104, 97, 110, 103, 101, 32, 109, 32, 49] = true
+    ∧ Neutral tables [99, 104, 97, 110, 103, 101, 32, 109, 32, 49] = false := by decide
+
+/-- non-vacuity: the stream `x\n\ny\n` with a dispatcher that refuses everything sends 1 + 12 + 1
+frames; with a socket that fails at the fifth `sendall` the peer has four of them, two lines were
+processed, the third never reached the dispatcher -/
+example :
+    ((serve tables L0 d0 [] () [[120, 10, 10, 121, 10]]).outs.length,
+     (serveF tables L0 d0 ⟨4, true⟩ [] () [[120, 10, 10, 121, 10]]).outs.length,
+     (serveF tables L0 d0 ⟨4, true⟩ [] () [[120, 10, 10, 121, 10]]).done,
+     (serveF tables L0 d0 ⟨4, true⟩ [] () [[120, 10, 10, 121, 10]]).sock) = (14, 4, 2, ⟨0, false⟩) := by decide
 
 end Frappy.Props.C07
